@@ -44,7 +44,7 @@ pub fn run_case(c: &Value) -> CaseResult {
         "unitprop" => unitprop::run(c),
         "lat_eu" | "lat_real" | "lat_bool" | "lat_rational" | "lat_complex" => lattice::run(c),
         "wmc" => wmc::run(c),
-        "ser_bdd" | "ser_sdd" | "ser_vtree" | "ser_dimacs" | "ser_sexpr" => ser::run(c),
+        "ser_bdd" | "ser_sdd" | "ser_vtree" | "ser_dimacs" | "ser_sexpr" | "ser_ledimacs" => ser::run(c),
         "compile_expr" | "compile_cnf" | "compile_sdd" | "compile_wide" => compile::run(c),
         _ => Err(format!("unknown case kind {kind}")),
     });
